@@ -1166,10 +1166,11 @@ impl<T: RadixSortable> AdvancedRadixSort<T> {
     fn insertion_sort(&mut self, data: &mut [T]) -> Result<()> {
         for i in 1..data.len() {
             let key = data[i].clone();
-            let key_value = key.extract_key();
             let mut j = i;
-            
-            while j > 0 && data[j - 1].extract_key() > key_value {
+
+            // compare the elements themselves (T: Ord): extract_key() of a string is only its
+            // first 8 bytes
+            while j > 0 && data[j - 1] > key {
                 data[j] = data[j - 1].clone();
                 j -= 1;
             }
@@ -1185,7 +1186,7 @@ impl<T: RadixSortable> AdvancedRadixSort<T> {
     fn tim_sort(&mut self, data: &mut [T]) -> Result<()> {
         // This is a simplified version - a full Tim sort implementation would be much more complex
         // For now, we use the standard library's unstable_sort which is based on pattern-defeating quicksort
-        data.sort_unstable_by_key(|item| item.extract_key());
+        data.sort_unstable();
         
         self.stats.basic_stats.used_parallel = false;
         self.stats.basic_stats.used_simd = false;
